@@ -93,6 +93,13 @@ func alphabet() []reqDef {
 		jsonPost("post-invalid-json", `{"query":`, nil),
 		jsonPost("post-headers-member", m("query", `{ctxinfo}`, "headers", m("X-Verif", []string{"from-body"})), nil),
 		jsonPost("post-unknown-field", m("query", `{nosuch}`), nil),
+		jsonPost("post-accept-gr", m("query", `{ctxinfo}`), map[string]string{"Accept": "application/graphql-response+json"}),
+		jsonPost("post-accept-json-bad", m("query", `{nosuch}`), map[string]string{"Accept": "application/json"}),
+		{Name: "get-accept-gr-bad", build: func() *http.Request {
+			r := httptest.NewRequest("GET", "/query?query="+url.QueryEscape(`{nosuch}`), nil)
+			r.Header.Set("Accept", "application/graphql-response+json")
+			return r
+		}},
 		{Name: "get-A", build: func() *http.Request {
 			return httptest.NewRequest("GET", "/query?query="+url.QueryEscape(qInfo)+"&operationName=A", nil)
 		}},
@@ -157,12 +164,15 @@ func newServer(prime map[string]string) *server {
 	s := &server{apq: graphql.MapCache[string]{}}
 	hs := handschema.New(&handschema.Log{})
 	s.srv = handler.New(hs)
+	// each server gets its OWN configuration maps (a transport that writes into its
+	// configured ResponseHeaders would carry one request's negotiation into the next)
+	rh := func() map[string][]string { return map[string][]string{"X-Custom": {"v"}} }
 	s.srv.AddTransport(transport.SSE{})
-	s.srv.AddTransport(transport.GET{})
-	s.srv.AddTransport(transport.POST{})
-	s.srv.AddTransport(transport.UrlEncodedForm{})
-	s.srv.AddTransport(transport.GRAPHQL{})
-	s.srv.AddTransport(transport.MultipartForm{})
+	s.srv.AddTransport(transport.GET{ResponseHeaders: rh()})
+	s.srv.AddTransport(transport.POST{ResponseHeaders: rh()})
+	s.srv.AddTransport(transport.UrlEncodedForm{ResponseHeaders: rh()})
+	s.srv.AddTransport(transport.GRAPHQL{ResponseHeaders: rh()})
+	s.srv.AddTransport(transport.MultipartForm{ResponseHeaders: rh()})
 	s.srv.SetQueryCache(recCache[*ast.QueryDocument]{inner: lru.New[*ast.QueryDocument](2), adds: &s.qAdds})
 	for h, t := range prime {
 		s.apq.Add(context.Background(), h, t)
